@@ -1,6 +1,6 @@
 # Configuration of ./check C09 (fields: see props.d/C06.py).
 PROP = {
-    "regen_files": ["GenGuards.v", "GenSeq.v"],
+    "regen_files": ["GenGuards.v", "GenSeq.v", "GenSigs.v"],
     "num": 9,
     "runs": [
         {"tag": "c09", "bin": "c09"},
